@@ -6,7 +6,7 @@
     carried by the decoder (PQ.MetaProofs); and the file-level theorem over the
     choice-driven foreign writer [Foreign.foreign_file] (PQ.ForeignProofs). *)
 From Coq Require Import List NArith ZArith.
-From PQ Require Import Bytes Schema Bitpack RleSpec Rle BitpackProofs RleSpecProofs RleDecProofs MetaTypes Thrift Meta MetaProofs Reader Foreign ForeignProofs.
+From PQ Require Import Bytes Schema Bitpack RleSpec Rle BitpackProofs RleSpecProofs RleDecProofs MetaTypes Thrift Meta MetaProofs Reader Foreign ForeignProofs FileSpec ConformantProofs.
 Import ListNotations.
 Local Open Scope N_scope.
 
@@ -64,3 +64,28 @@ Theorem C04_segment_ok : forall fuel w choices pad ls,
     Forall RleDecProofs.run_small (segment fuel w choices pad ls).
 Proof. exact segment_ok. Qed.
 Print Assumptions C04_segment_ok.
+
+(** The property at full strength, without a writer in the statement: EVERY
+    byte string that the independent validator [FileSpec.check_file] accepts as
+    a conformant file of the supported subset (magic, footer, schema, per
+    column chunk: offsets, codec, page headers of either data-page kind the
+    subset has, levels as any well-formed hybrid stream, PLAIN values, counts
+    consistent) is read back by the reader model as exactly the records the
+    validator's own reference assembly sees ([view_records]), with the file's
+    row count, no error and no panic.  Row groups with zero rows are allowed
+    anywhere (the proof of this forced hypothesis found defect D14, repaired in
+    /repo by 0d8f069).  [decompress] is any function that is the identity on
+    UNCOMPRESSED and returns bytes. *)
+Theorem C04_conformant_read_ok : forall (decompress : Z -> bytes -> option bytes) fs file v,
+  check_file decompress file = inr v ->
+  fv_fields v = fs ->
+  fshape_ok fs ->
+  (forall x, decompress CODEC_UNCOMPRESSED x = Some x) ->
+  (forall c x y, wf_bytes x -> decompress c x = Some y -> wf_bytes y) ->
+  wf_bytes file ->
+  read_all decompress fs file =
+  {| o_open_ok := true; o_rows := Z.of_N (sumN (map rv_rows (fv_rgs v)));
+     o_nexts := sumN (map rv_rows (fv_rgs v)); o_err := false; o_panic := false;
+     o_recs := view_records v |}.
+Proof. exact conformant_read_ok. Qed.
+Print Assumptions C04_conformant_read_ok.
